@@ -5,6 +5,7 @@ import CstModel.Proofs.TokenSpec
 import CstModel.Proofs.BackN
 import CstModel.Props.Gen
 import CstModel.Props.GenIter
+import CstModel.Props.GenNav
 open Cst.C03
 #print axioms parent_child
 #print axioms ancestorsOf_spec
@@ -49,3 +50,9 @@ open Cst.C03
 #print axioms Cst.Gen.it_next
 #print axioms Cst.Gen.children_new
 #print axioms Cst.Gen.ec_next
+#print axioms Cst.Gen.nv_first
+#print axioms Cst.Gen.nv_last
+#print axioms Cst.Gen.nv_next_after
+#print axioms Cst.Gen.nv_prev_before
+#print axioms Cst.Gen.nv_next_sibling
+#print axioms Cst.Gen.nv_prev_sibling
